@@ -73,6 +73,7 @@ class World:
         self.info = []
         self.n = 0
         self.sub_creator = {}   # (sv, "f|d") -> manager id or "" (permanent)
+        self.creator_at = []
 
     # -- observation ---------------------------------------------------------
     def content(self):
@@ -115,6 +116,9 @@ class World:
                     owned_lists=self.owned_lists())
         self.events.append(base)
         self.info.append(what or ev["op"])
+        # who created which subscription, as of this event (signatures of
+        # findings are computed for the event, not for the end of the history)
+        self.creator_at.append(dict(self.sub_creator))
 
     @staticmethod
     def classify(exc):
@@ -424,7 +428,9 @@ def directed_histories(rng):
     return out
 
 
-def signature(ev, clauses, w):
+def signature(ev, clauses, w, i=None):
+    creator = w.creator_at[i] if i is not None and i < len(w.creator_at) \
+        else w.sub_creator
     s = "%s:%s" % (ev["op"], "+".join(sorted(clauses)))
     if ev["res"] not in ("ok", "existing"):
         s += ":" + ev["res"]
@@ -435,13 +441,13 @@ def signature(ev, clauses, w):
         for o in ev["owned_lists"]:
             if o["m"] == ev["m"] and o["sv"] == ev["sv"]:
                 listed = set(o["s"])
-        missing = [k[1] for k, c in w.sub_creator.items()
+        missing = [k[1] for k, c in creator.items()
                    if k[0] == ev["sv"] and c == mid and k[1] not in listed]
         pre = ("pywbemfilter:%s:" % mid, "pywbemdestination:%s:" % mid)
         if missing and all(not m.split("|")[0].startswith(pre[0]) and
                            not m.split("|")[1].startswith(pre[1])
                            for m in missing) and not \
-                (listed - set(k[1] for k, c in w.sub_creator.items()
+                (listed - set(k[1] for k, c in creator.items()
                               if c == mid)):
             s += ":owned-subscription-between-unowned-filter-and-destination"
     return s
@@ -480,7 +486,7 @@ def run(ctx):
             continue
         i = v["at"] - 1
         ev = w.events[i]
-        ctx.report(signature(ev, v["clauses"], w),
+        ctx.report(signature(ev, v["clauses"], w, i),
                    "%s -> %s%s violates %s (manager IDs %s)" % (
                        w.info[i], ev["res"], ev["code"] or "",
                        ", ".join(v["clauses"]),
